@@ -749,11 +749,16 @@ class Message:
                 "Host is not a usable IP literal"
             ) from e
 
-        is_ip_literal = parsed.netloc.startswith("[") or (
-            parsed.hostname.count(".") == 3
-            and all(c in "0123456789." for c in parsed.hostname)
-            and all(int(x) <= 255 for x in parsed.hostname.split("."))
-        )
+        try:
+            is_ip_literal = parsed.netloc.startswith("[") or (
+                parsed.hostname.count(".") == 3
+                and all(c in "0123456789." for c in parsed.hostname)
+                and all(int(x) <= 255 for x in parsed.hostname.split("."))
+            )
+        except ValueError:
+            # digits and dots with an empty (or absurdly long) component, like
+            # "1..2.3": not an IPv4 literal but a registered name
+            is_ip_literal = False
 
         if set_uri_host and not is_ip_literal:
             try:
